@@ -46,6 +46,39 @@ def body_laws(wrong=False):
     return body
 
 
+def body_laws_bb():
+    """black box: two MetaTypes built by MetaType::new::<A>() and ::<B>() (whatever the fields are), observed only through the public operations;
+    the identities of A and B are two free 128-bit ids, so 'A and B are aliases' and 'A and B are different types' are both covered"""
+    def body(M):
+        new = M.resolve('MetaType::new')
+        a, b = Cell(M.run_fn(new, [], {'T': 'A'})), Cell(M.run_fn(new, [], {'T': 'B'}))
+        ia, ib = tid_of('<A as TypeInfo>::Identity'), tid_of('<B as TypeInfo>::Identity')
+        viol = []
+        ta, tb = M.run_fn(M.resolve('MetaType::type_id'), [Ref(a)]), M.run_fn(M.resolve('MetaType::type_id'), [Ref(b)])
+        viol.append(('type_id() is TypeId::of::<T::Identity>()', z3.Or(ta != ia, tb != ib)))
+        eq = M.run_fn(M.resolve('<MetaType as PartialEq>::eq'), [Ref(a), Ref(b)])
+        viol.append(('eq <=> same identity', eq != (ia == ib)))
+        c = M.run_fn(M.resolve('<MetaType as Ord>::cmp'), [Ref(a), Ref(b)])
+        c2 = M.run_fn(M.resolve('<MetaType as Ord>::cmp'), [Ref(b), Ref(a)])
+        viol.append(('cmp == Equal <=> eq', (c.discr == 0) != eq))
+        viol.append(('cmp antisymmetric', z3.Not(z3.And((c.discr == 0xFF) == (c2.discr == 1), (c.discr == 0) == (c2.discr == 0)))))
+        pc = M.run_fn(M.resolve('<MetaType as PartialOrd>::partial_cmp'), [Ref(a), Ref(b)])
+        viol.append(('partial_cmp == Some(cmp)', z3.BoolVal(True) if (isinstance(pc.discr, int) and pc.discr != 1) or 1 not in pc.payloads else payload(pc, 1)[0].discr != c.discr))
+        logs = []
+        for x in (a, b):
+            M.aux['hash_log'] = []
+            M.run_fn(M.resolve('<MetaType as Hash>::hash'), [Ref(x), Ref(Cell(Tok('hasher')))])
+            logs.append(list(M.aux['hash_log']))
+        same = z3.BoolVal(False) if len(logs[0]) != len(logs[1]) else z3.And([M.val_eq(x, y) for x, y in zip(*logs)] + [z3.BoolVal(True)])
+        viol.append(('equal MetaTypes hash alike', z3.And(eq, z3.Not(same))))
+        failed = []
+        for name, v in viol:
+            if M.check(v): failed.append(name)
+        if failed: M.emit('cex', what='metatype_laws', failed=failed)
+        else: M.emit('ok', obligations=[n for n, _ in viol])
+    return body
+
+
 def body_new():
     def body(M):
         M.aux['typeid_of_log'] = []
@@ -126,15 +159,32 @@ def run(ctx):
     ctx.outside = ['TypeInfo impls outside the crate (hand-written or derived): derive always sets Identity = Self', 'injectivity of TypeId::of (rustc guarantee)']
     ctx.assumptions = ['TypeId is modelled as an opaque 128-bit value with ==, a total order and a hash that feeds exactly that value']
     cexs = []
-    h = run_harness(ctx, 'metatype-laws', body_laws())
+    deferred = []
+    def attempt(name, body, **kw):
+        """the two harnesses that build a MetaType field by field assume its representation; when that changes they are deferred and the
+        black-box harness (MetaType::new + public operations only) decides"""
+        try:
+            return run_harness(ctx, name, body, **kw)
+        except CheckInconclusive as e:
+            deferred.append(str(e)[:300])
+            if ctx.harnesses and ctx.harnesses[-1].name == name: ctx.harnesses.pop()
+            return None
+    h = attempt('metatype-laws', body_laws())
+    if h is not None:
+        cexs += [r for r in h.results if r['kind'] == 'cex']
+        for r in h.results:
+            if r['kind'] == 'ok':
+                for o in r['obligations']: ctx.obligations[o] = 'unsat'
+                ctx.samples.append({'obligation': 'forall ta,tb (128 bit), fnA != fnB opaque: eq(a,b) == (ta == tb)', 'verdict': 'unsat', 'phantom identity': r['phantom_identity']})
+    h = attempt('metatype-new', body_new())
+    if h is not None:
+        cexs += [r for r in h.results if r['kind'] == 'cex']
+        ctx.obligations['MetaType::new::<T> stores <T as TypeInfo>::type_info and TypeId::of::<T::Identity>()'] = 'unsat' if not h.kinds.get('cex') else 'sat'
+    h = run_harness(ctx, 'metatype-laws-blackbox', body_laws_bb())
     cexs += [r for r in h.results if r['kind'] == 'cex']
     for r in h.results:
         if r['kind'] == 'ok':
-            for o in r['obligations']: ctx.obligations[o] = 'unsat'
-            ctx.samples.append({'obligation': 'forall ta,tb (128 bit), fnA != fnB opaque: eq(a,b) == (ta == tb)', 'verdict': 'unsat', 'phantom identity': r['phantom_identity']})
-    h = run_harness(ctx, 'metatype-new', body_new())
-    cexs += [r for r in h.results if r['kind'] == 'cex']
-    ctx.obligations['MetaType::new::<T> stores <T as TypeInfo>::type_info and TypeId::of::<T::Identity>()'] = 'unsat' if not h.kinds.get('cex') else 'sat'
+            for o in r['obligations']: ctx.obligations['black box (new::<A>, new::<B>, identities free): ' + o] = 'unsat'
     impls = identity_impls(fns, decls)
     if len(impls) < 20: raise CheckInconclusive('declaration scanner found only %d TypeInfo impls' % len(impls))
     aliases = [(f, s, i) for f, s, i in impls if i is not None and i != 'Self' and i != s]
@@ -151,12 +201,16 @@ def run(ctx):
         cexs += [r for r in h.results if r['kind'] == 'cex']
         ctx.obligations['%s (Identity = %s): type_info() is a single forwarding call' % (s, i)] = 'unsat' if not h.kinds.get('cex') else 'sat'
     ctx.notes.append('alias impls checked: %s' % [(s, i) for _, s, i in aliases])
-    hneg = run_harness(ctx, 'negative-control', body_laws(wrong=True)); ctx.harnesses.pop()
-    if not any(r['kind'] == 'cex' for r in hneg.results): raise CheckInconclusive('negative control not refuted')
+    hneg = attempt('negative-control', body_laws(wrong=True))
+    if hneg is not None:
+        ctx.harnesses.pop()
+        if not any(r['kind'] == 'cex' for r in hneg.results): raise CheckInconclusive('negative control not refuted')
     for c in cexs:
         case = {k: v for k, v in c.items() if k != 'kind'}
         rep, role = replay_case(ctx, case)
         ctx.report_case(case, rep, role)
+    if deferred and not ctx.violations:
+        raise CheckInconclusive('part of the check cannot be executed on the current code and no violation was found by the rest: ' + '; '.join(deferred)[:1200])
     if not ctx.violations:
         a = ctx.get_native().ask({'op': 'metatype_laws'})
         if not (a.get('laws_ok') and a.get('aliases_ok')): raise CheckInconclusive('native law/alias test fails although the symbolic check passed: ' + json.dumps(a))
